@@ -77,6 +77,10 @@ func preconditionSide(cond ssa.Value) (kind string, mistakeWhen bool, ok bool) {
 				return "nil", c.Op == token.EQL, true
 			}
 		case yc.Value != nil && isLenCall(x):
+			if n, ok := constInt(yc); ok && n == 0 {
+				// len(x) == 0 is the emptiness test
+				return "emptiness", c.Op == token.EQL, true
+			}
 			// "must be N": the mistake is a length other than N
 			return "count", c.Op == token.NEQ, true
 		case yc.Value != nil && strings.HasSuffix(x.Type().String(), "reflect.Kind"):
@@ -160,7 +164,7 @@ func c13MethodNameValidated(p *Prog, r *Report) {
 				return true
 			}
 			cal := staticCallee(c)
-			return cal != nil && relPkg(cal) == "" && recvNamed(cal) == nt && usesLookup(cal)
+			return cal != nil && cal.Blocks != nil && relPkg(cal) == "" && usesLookup(cal)
 		}
 		okAll := true
 		for _, ret := range returnsOf(f) {
